@@ -882,7 +882,7 @@ def rec_tagged(c, have_comment_vec):
                 BlockContent::Comment(token, line_offset) => {              (parent is a block)
                     a2lcomment.push(Comment {
                         comment: parser.get_token_text(token).to_string(),
-                        is_included: context.fileid != 0,
+                        is_included: token.fileid != 0,
                         line: context.line,
                         uid: parser.get_next_id(),
                         start_offset: line_offset,
@@ -915,7 +915,7 @@ def rec_tagged(c, have_comment_vec):
             b = m.group('{')
             b.expect('a2lcomment.push(Comment {'
                      ' comment: parser.get_token_text(token).to_string(),'
-                     ' is_included: context.fileid != 0,'
+                     ' is_included: token.fileid != 0,'
                      ' line: context.line,'
                      ' uid: parser.get_next_id(),'
                      ' start_offset: line_offset });')
